@@ -173,8 +173,37 @@ def mixed_dtype_stream(ctx):
             ctx.oracle_failure(info, fails, {'mixed_dtype_rounding': (not same) and r and len(fails) == 1})
 
 
+def big_integer_copy_stream(ctx):
+    """64-bit integer data beyond 2**53 (time stamps, counters), default or explicit integer threshold: a dendrogram equals
+    its own saved-and-loaded copy, in both formats and both directions."""
+    from astrodendro import Dendrogram
+    rng = ctx.rng('c20-bigint')
+    for it in range(10 if ctx.quick else 100):
+        dt = rng.choice(['int64', 'int64', 'uint64'])
+        base = rng.choice([2 ** 53, 2 ** 60, 2 ** 62]) + rng.randint(1, 999)
+        vals = [base + rng.randint(1, 40) for _ in range(rng.randint(4, 9))]
+        arr = np.array(vals, dtype=dt)
+        kw = {} if rng.random() < 0.5 else {'min_value': base + rng.randint(0, 5)}
+        info = {'stream': 'big integers', 'dtype': dt, 'data': vals, 'min_value': kw.get('min_value', 'default')}
+        try:
+            d = Dendrogram.compute(arr, **kw)
+            for fmt in ('hdf5', 'fits'):
+                d2 = dc.save_load(d, fmt)
+                ctx.count('big_integer_copies')
+                if any(d2.params.get(k_) != d.params.get(k_) for k_ in ('min_value', 'min_delta', 'min_npix')):
+                    if fmt == 'fits':
+                        continue                   # a FITS card keeps 20 characters of a number (C09, K6)
+                if not (bool(d == d2) and bool(d2 == d)):
+                    ctx.oracle_failure(dict(info, format=fmt), ['the dendrogram does not compare equal to its own saved-and-loaded copy (min_value %r -> %r)'
+                                                                % (d.params['min_value'], d2.params['min_value'])], {})
+        except Exception as e:
+            ctx.oracle_failure(info, ['raised %r' % (e,)], {})
+        ctx.case_done(None, ('bigint', it))
+
+
 def explore(ctx):
     mixed_dtype_stream(ctx)
+    big_integer_copy_stream(ctx)
     rng = ctx.rng('c20')
     terms, meta = [], []
     n = 120 if ctx.quick else 1200
